@@ -19,7 +19,7 @@ LATTICE = {
     "quantized_bits": dict(bits=[8, 4], integer=[0, 1], symmetric=[0, 1], keep_negative=[True, False],
                            alpha=[None, 2.0, "auto", "auto_po2"], scale_axis=[None, 0], qnoise_factor=[1.0, 0.5],
                            elements_per_scale=[None, 2], min_po2_exponent=[None, -1], max_po2_exponent=[None, 0],
-                           post_training_scale=[None, "arr"]),
+                           post_training_scale=[None, "arr", "col", "row"]),
     "bernoulli": dict(alpha=[None, 2.0], temperature=[6.0, 1.0], use_real_sigmoid=[True, False]),
     "ternary": dict(alpha=[None, 2.0, "auto"], threshold=[None, 0.7], number_of_unrolls=[5, 1]),
     "stochastic_ternary": dict(alpha=[None, "auto", "auto_po2"], temperature=[8.0, 2.0], use_real_sigmoid=[True, False],
@@ -102,6 +102,10 @@ def materialize(kw):
   out = dict(kw)
   if out.get("post_training_scale") == "arr":
     out["post_training_scale"] = np.array([0.5], dtype=np.float32)
+  elif out.get("post_training_scale") == "col":       # one frozen scale per ROW of the (4, 6) probes: the SHAPE is part of the option
+    out["post_training_scale"] = np.array([[4.0], [1.0], [0.25], [0.0625]], dtype=np.float32)
+  elif out.get("post_training_scale") == "row":
+    out["post_training_scale"] = np.array([[4.0, 1.0, 0.25, 0.0625, 2.0, 0.5]], dtype=np.float32)
   return out
 
 
